@@ -405,6 +405,76 @@ func (t *blockingTester) PrintAndReset(*logT) {}
 func (t *blockingTester) PrintStats(*logT)    {}
 func (t *blockingTester) Reset()              {}
 
+// runStopVsPending: S7:workers=<n>;pending=<k>. The stop request has been issued and k registrations are
+// already queued when the distributor reaches its receive point. select nondeterminism is resolved in favour
+// of the stop request (vchan.PreferClosedRecv): under that resolution the pipeline must wind down without
+// working through the queue - otherwise the code gives pending input priority over the stop request and a
+// sender that never pauses keeps the pipeline alive for ever ("whether or not registrations keep arriving").
+func runStopVsPending(a *vh.Args, name string) {
+	var workers, pending int
+	fmt.Sscanf(strings.TrimPrefix(name, "S7:"), "workers=%d;pending=%d", &workers, &pending)
+	installHooks()
+	var rmP *lib.RegistrationManager
+	ret := false
+	mk := func() *vsched.Scenario {
+		return &vsched.Scenario{
+			Setup: func(x *vsched.Exec) { vchan.PreferClosedRecv = true; rmP, ret = nil, false },
+			Body: func() {
+				rm := vfix.Manager(conf(), sel, &tester{}, vfix.Transports{Min: true}, nil)
+				var anns []lib.VerifDetectorMsg
+				rm.VerifCaptureDetector(&anns)
+				rm.VerifSetWorkers(workers)
+				rmP = rm
+				ctx, cancel := context.WithCancel(context.Background())
+				regChan := make(chan interface{}, pending)
+				for i := 0; i < pending; i++ {
+					regChan <- interface{}(msg(10+i, "93.184.216.34:443"))
+				}
+				cancel()
+				var parent vsync.WaitGroup
+				parent.Add(1)
+				vsched.GoNamed("pipeline", func() { rm.HandleRegUpdates(ctx, regChan, &parent); ret = true })
+				parent.Wait()
+			},
+			Check: func(x *vsched.Exec) *vsched.Violation {
+				vchan.PreferClosedRecv = false
+				if x.Verdict != vsched.VOK {
+					return &vsched.Violation{Key: "pipeline-does-not-wind-down", What: x.Verdict + " " + x.Detail}
+				}
+				tot, _, _, _ := rmP.VerifIngestCounters()
+				if tot > 1 {
+					return &vsched.Violation{Key: "stop-request-yields-to-pending-input", What: fmt.Sprintf("stop requested with %d registrations queued: the distributor received %d of them before winding down although the stop request was selectable", pending, tot)}
+				}
+				return nil
+			},
+			Outcome: func(x *vsched.Exec) string {
+				tot, dropped, _, _ := rmP.VerifIngestCounters()
+				return fmt.Sprintf("%s recv=%d dropped=%d ret=%v", x.Verdict, tot, dropped, ret)
+			},
+		}
+	}
+	if a.Replay != "" {
+		rp := vh.LoadReplay(a.Replay)
+		x, v := vsched.RunOnce(vh.Ints(rp["choices"]), 0, mk)
+		for _, l := range x.Trace() {
+			fmt.Fprintln(os.Stderr, l)
+		}
+		ot := &vh.Out{Name: name, Evaluations: 1}
+		if v != nil {
+			ot.Violations = append(ot.Violations, &vh.Violation{Key: v.Key, What: v.What})
+		}
+		vh.Emit(ot)
+		return
+	}
+	vh.SelfCheck(name, mk)
+	r := vsched.Explore(vsched.Config{Name: name, PreemptBound: 2, EnvBound: -1, Deadline: a.Deadline(), MaxPoints: 4000}, mk)
+	out := vh.FromSched(r)
+	for _, v := range out.Violations {
+		v.Key = "S7:" + v.Key
+	}
+	vh.Emit(out)
+}
+
 func runPipeline(a *vh.Args, name string) {
 	// name: S6:workers=<n>;script=<letters>  f = a registration arrives (offered without blocking, as the ZMQ
 	// ingester does), r = the pending liveness probes complete, s = stop request
@@ -552,6 +622,10 @@ func main() {
 	}
 	if strings.HasPrefix(name, "S6:") {
 		runPipeline(a, name)
+		return
+	}
+	if strings.HasPrefix(name, "S7:") {
+		runStopVsPending(a, name)
 		return
 	}
 	sc, ok := scenarios()[name]
